@@ -159,6 +159,8 @@ def judge(ctx, traces, consts, label):
 # ------------------------------------------------------------------ harness
 def run_auth(ctx, vh, out, seed=1, n=0, ntimed=0, maxtick=10, scen=None, replay=None, retries=3):
     args = ['auth', '-out', out, '-seed', str(seed), '-n', str(n), '-ntimed', str(ntimed), '-maxtick', str(maxtick), '-retries', str(retries)]
+    if os.environ.get('VERIF_AUTH_NILHDR'):   # opt-in: see "nil Header" in run_rest's assumptions
+        args += ['-nilhdr']
     if scen:
         args += ['-scen', scen]
     if replay:
@@ -206,7 +208,8 @@ def tally(ctx, trace):
             if op == 'begin':
                 slots[e['c']] = 0
                 inc('begin:body=' + e['body'])
-                if e.get('hosthdr', '') != e.get('urlhost', ''):
+                inc('begin:request-shape=%d' % e.get('shape', 0))
+                if e.get('hosthdr', '') and e.get('hosthdr', '') != e.get('urlhost', ''):
                     inc('begin:host-header-names-another-host')
                 if sum(1 for v in slots.values() if v >= 0) > 1:
                     inc('begin:concurrent')
@@ -238,7 +241,7 @@ NEEDED = {
     'C10': ['regreq:1:bearer', 'regreq:2:bearer', 'regreq:1:static', 'tokreq:POST:refresh', 'tokreq:GET:none', 'tokresp:grant', 'tokresp:grant:life',
             'tokresp:e401', 'tick', 'tokreq:challenge-text-kept', 'shape:expired-token-behind-live-one-needed-again', 'tokresp:delayed-past-a-cached-token-expiry'],
     'C11': ['regreq:2:basic', 'regreq:1:basic', 'tokreq:GET:basic', 'tokreq:POST:refresh', 'tokresp:e404', 'cfglookup', 'end:403', 'end:-1',
-            'begin:body=plain', 'begin:body=getbody', 'regresp:401:other', 'regresp:401:bad', 'regresp:401:basic+bearer', 'tokresp:grant:newrt', 'begin:host-header-names-another-host'],
+            'begin:body=plain', 'begin:body=getbody', 'regresp:401:other', 'regresp:401:bad', 'regresp:401:basic+bearer', 'tokresp:grant:newrt', 'begin:host-header-names-another-host', 'begin:request-shape=1', 'begin:request-shape=2', 'begin:request-shape=3'],
 }
 
 
@@ -255,7 +258,7 @@ def samples(trace, k=16):
                 best = best or cur
                 cur = []
                 e = dict(op='reset', cfg=e['cfg'], names=e.get('names', {}), timed=e['timed'], src=e['src'])
-            for drop in ('ms', 'hdrs' if e['op'] != 'regresp' else 'ms', 'diff', 'bodies'):
+            for drop in ('ms', 'hdrs' if e['op'] != 'regresp' else 'ms', 'diff', 'bodies', 'same'):
                 e.pop(drop, None)
             cur.append(e)
     return (cur or best)[:k]
@@ -354,6 +357,9 @@ def run_rest(ctx, pid, models):
         'real-time scenarios: every event of a step lies within [50, 450] ms of its half-second tick, otherwise the run is discarded and repeated '
         '(decided on timestamps only); %d run(s) repeated, %d scenario(s) dropped' % (s1['reruns'] + s2['reruns'], dropped),
         'a cached token within one second of its expiry may or may not be reused (the specification\'s "may" band); lifetimes are whole seconds 1..3 or unstated (60 s)',
+        'hand-built requests with a nil Header are used only in scenarios scripted so that the transport never has an Authorization header to add: '
+        'the unchanged transport panics otherwise (assignment to entry in nil map in setAuthorization); VERIF_AUTH_NILHDR=1 uses them everywhere. '
+        'Requests with a pre-set Authorization header are not used',
         'token servers do not redirect; token and refresh-token strings are unique per scenario',
         'which of several usable challenges in one 401 is taken is left open by the specification',
         'TLC and the Json/IOUtils community modules']
